@@ -1,0 +1,51 @@
+//go:build verif
+
+package redis
+
+// Contracts for the deductive verifier in /verif (gocv). Comment-only file,
+// compiled only under the `verif` build tag.
+//
+// Redis backend, C02 last sentence only: "every successful write gives the record a version never handed out
+// before".  There is no model of the Redis server here (its atomicity, TTL and scan live in the server and in
+// go-redis: the commands are assumed contracts returning arbitrary results).  What is checked: every record that
+// is encoded for a write command (rec2db is called for nothing else) carries a version that was not yet issued
+// when the method was entered - i.e. one this very call obtained from ulidutils.NewID.
+
+// the codec is trusted (protobuf); encoding for a write demands a version issued during the calling method
+//@ assumed func rec2db(r *kvs.Record) []byte
+//@   requires r != nil
+//@   requires [C02] freshversion: !in(r.Version, atEntry(issued))
+//@ assumed func db2rec(buf []byte) kvs.Record
+//@ assumed func rKey(key string) string
+//@ assumed func rKeys(keys []string) []string
+//@ func checkErr(err error) error
+//@   props C02
+//@   ensures (r0 == nil) == (err == nil)
+//@ assumed func expiration(eat *time.Time, curT time.Time) time.Duration
+
+//@ func (c *client) Create(ctx context.Context, record kvs.Record) (string, error)
+//@   props C02
+//@   requires c != nil && c.rdb != nil
+//@   modifies issued, clock
+//@   ensures r1 == nil ==> !in(r0, old(issued)) && r0 != ""
+
+//@ func (c *client) Put(ctx context.Context, record kvs.Record) (kvs.Record, error)
+//@   props C02
+//@   requires c != nil && c.rdb != nil
+//@   modifies issued, clock
+//@   ensures !in(r0.Version, old(issued)) && forall(v, string, in(v, old(issued)) ==> in(v, issued))
+
+//@ func (c *client) PutMany(ctx context.Context, records []kvs.Record) error
+//@   props C02
+//@   requires c != nil && c.rdb != nil
+//@   modifies issued, clock
+//@   loop 1
+//@     invariant c != nil && c.rdb != nil && forall(v, string, in(v, old(issued)) ==> in(v, issued)) && records == records0 && 0 - 1 <= rangeindex && rangeindex <= len(records) - 1 && fresh(mset)
+//@   loop 2
+//@     invariant c != nil && c.rdb != nil && forall(v, string, in(v, old(issued)) ==> in(v, issued)) && records == records0 && 0 - 1 <= rangeindex_2 && rangeindex_2 <= len(records) - 1
+
+// the optimistic transaction body of CasByVersion (run by rdb.Watch): the record written carries a new version
+//@ func (c *client) CasByVersion__1(tx *redis.Tx) error
+//@   props C02
+//@   requires tx != nil
+//@   modifies everything
